@@ -62,7 +62,7 @@ def _spec_inputs(k):
         # fluxes of order 1e-8 (kg m-2 s-1), no background: double and its single-precision twin
         (1, (8, 8), "double", False, [1, 4], False, 0.0),
         (1, (8, 8), "single", False, [1, 4], False, 0.0),
-        # default halo on 12x12 cells = a 36x36 padded grid (threaded FFT plans differ from serial ones at such sizes)
+        # default halo on 12x12 square cells = a 36x36 padded grid (threaded FFT plans differ from serial ones at such sizes)
         (4, (512, 512), "double", False, 3, False, None),
         (4, (512, 512), "double", False, [2, 4], True, None),
     ]
@@ -86,7 +86,7 @@ def _spec_inputs(k):
         u, K = u * (1.0 + 1e-8), K * (1.0 - 2e-8)
     if k in (14, 15):
         q = (q + 0.8) * 1e-8
-    return dict(q=q, z=z, profiles=(u, v, K, 0.7 * K, 1.2 * K), domain=(240.0 * nx * dscale, 180.0 * ny), levels=lv, modes=modes,
+    return dict(q=q, z=z, profiles=(u, v, K, 0.7 * K, 1.2 * K), domain=(240.0 * nx * dscale, (240.0 if k in (16, 17) else 180.0) * ny), levels=lv, modes=modes,
                 meas_pt=(240.0 * (nx // 3), 180.0 * (ny // 2)) if fp else (0.0, 0.0), bg=0.0 if k in (14, 15) else 1.0, footprint=fp, analytic=ana,
                 halo=halo, precision=prec)
 
@@ -366,6 +366,18 @@ def machine(tier, stats, last_fail):
         @rule(n=st.sampled_from([1, 2, 3, 4, 8, 1, 7, 8]))
         def set_threads(self, n):
             self._do(["threads", n])
+
+        @rule(k=st.sampled_from([16, 17, 16, 4, 6, 0]), n=st.sampled_from([8, 7, 8, 4]))
+        def switch_threads_and_repeat(self, k, n):
+            # the same solve before, between and after a change of the thread setting, without a reset in between:
+            # whatever the FFT layer keeps from the previous setting must not leak into the next solve
+            self._do(["solve", k])
+            self._do(["threads", n])
+            self._do(["solve", k])
+            self._do(["threads", 1])
+            self._do(["solve", k])
+            self._do(["threads", n])
+            self._do(["solve", k])
 
         @rule()
         def reset(self):
